@@ -34,7 +34,7 @@ def jobs(tier):
     if tier == "quick":
         sh = sched.shapes(2, maxtop=2, maxleaves=3, always=True)
     else:
-        sh = sched.shapes(3, maxtop=3, maxleaves=4, always=True)
+        sh = sched.thorough_shapes(always=True)
     sweep = [("C30", s, 1, "sweep") for s in [("L",), ("L", "L"), (("D", True, ("L",)),), (("D", False, ("L", "L")),)]]
     return [("C30", s, nc) for s in sh for nc in (0, 1, 2)] + sharded(sweep, 8)
 
